@@ -13,6 +13,7 @@
 #include <etl/_type_traits/is_invocable_r.hpp>
 #include <etl/_type_traits/is_pointer.hpp>
 #include <etl/_type_traits/is_same.hpp>
+#include <etl/_type_traits/remove_reference.hpp>
 #include <etl/_utility/forward.hpp>
 #include <etl/_utility/swap.hpp>
 
@@ -26,7 +27,10 @@ struct function_ref;
 template <bool Noexcept, typename R, typename... Args>
 struct function_ref<Noexcept, R(Args...)> {
     template <typename F>
-        requires(not etl::is_same_v<decay_t<F>, function_ref> and etl::is_invocable_r_v<R, F &&, Args...>)
+        requires(
+            not etl::is_same_v<decay_t<F>, function_ref>
+            and etl::is_invocable_r_v<R, etl::remove_reference_t<F>&, Args...>
+        )
     function_ref(F&& f) noexcept
         : _obj(const_cast<void*>(reinterpret_cast<void const*>(etl::addressof(f))))
         , _callable{+[](void* obj, Args... args) noexcept(Noexcept) -> R {
